@@ -4,7 +4,7 @@ from __future__ import annotations
 import ast
 from typing import Dict, List, Optional, Set, Tuple
 
-from ..index import AnalysisError, Class, Func, Index, dotted, last_name, norm_stmt, parent
+from ..index import AnalysisError, Class, Func, Index, alpha_eq, dotted, last_name, norm_stmt, parent
 from ..report import Finding, RuleResult
 
 SETCALLS = {"set", "frozenset"}
@@ -202,6 +202,11 @@ def rule_setiter(ctx, prop: str) -> RuleResult:
             # the triage is about the construct; a helper that was renamed or hoisted out of its
             # enclosing function keeps it (same file, same normalised text, unique entry)
             cands = [v for (fl, _q, c_), v in SET_TRIAGE.items() if fl == f.file and c_ == cons]
+            if len(cands) == 1:
+                why = cands[0]
+        if why is None:
+            # ... and a renamed loop variable / local keeps it too (same function, alpha-equivalent text)
+            cands = [v for (fl, q_, c_), v in SET_TRIAGE.items() if fl == f.file and q_ == f.qualname and alpha_eq(c_, cons)]
             if len(cands) == 1:
                 why = cands[0]
         if why is not None:
